@@ -12,6 +12,7 @@
 //!            the real `Rust::parse_arguments` + `RustHasher::generate_hash_key` with a mocked rustc; the
 //!            pre-image is what the real code fed to its `Digest` (hook util::VERIF_DIGEST_TRACE)
 //!   keypair  ( reqA reqB meta )               -> ( same_key resA resB )   two `key` requests in one working directory
+//!   cwdpair  ( req subA subB meta )           -> ( same_key okA okB )   one request in two directories under one parent
 //!   digest   ( content is_archive )           -> ( digest )              helper for the case generator
 use sccache::util::{Digest, VERIF_DIGEST_TRACE};
 use sccache::verif_hooks::cache::{Cache, CacheMode, CacheWrite, Storage};
@@ -155,6 +156,22 @@ impl Scratch {
             let _ = std::fs::write(&p, f.arg(1).bytes());
         }
     }
+    /// give every file below the scratch directory the same fixed modification time in the past
+    fn stamp_all(&self) {
+        fn walk(d: &Path) {
+            if let Ok(rd) = std::fs::read_dir(d) {
+                for e in rd.flatten() {
+                    let p = e.path();
+                    if p.is_dir() {
+                        walk(&p);
+                    } else {
+                        let _ = filetime::set_file_mtime(&p, filetime::FileTime::from_unix_time(1_600_000_000, 123_456_789));
+                    }
+                }
+            }
+        }
+        walk(self.dir.path());
+    }
     /// remove everything below the scratch directory (the directory itself stays: it is the cwd)
     fn clear(&self) {
         if let Ok(rd) = std::fs::read_dir(self.dir.path()) {
@@ -242,9 +259,18 @@ fn leg_key(case: &Sx) -> Sx {
 /// ( reqA reqB meta ): both requests in the SAME working directory, one after the other
 fn leg_keypair(case: &Sx) -> Sx {
     let scratch = Scratch::new(case.arg(0).arg(1));
+    // meta = ( label expectation [keep_mtime] ): with keep_mtime every file of both requests carries one fixed, old
+    // modification time, so the second request sees files of the same path, (possibly) size and mtime as the first
+    let keep_mtime = case.arg(2).list().get(2).map(|f| f.is_sym("keep_mtime")).unwrap_or(false);
+    if keep_mtime {
+        scratch.stamp_all();
+    }
     let (ra, ka) = key_in(case.arg(0), &scratch);
     scratch.clear();
     scratch.populate(case.arg(1).arg(1));
+    if keep_mtime {
+        scratch.stamp_all();
+    }
     let (rb, kb) = key_in(case.arg(1), &scratch);
     let same = match (&ka, &kb) {
         (Some(a), Some(b)) => a == b,
@@ -254,13 +280,61 @@ fn leg_keypair(case: &Sx) -> Sx {
 }
 
 fn key_in(case: &Sx, scratch: &Scratch) -> (Sx, Option<String>) {
-    let (r, k) = key_in2(case, scratch);
-    (r, k)
+    key_in2(case, scratch, scratch.path().to_path_buf())
 }
 
-fn key_in2(case: &Sx, scratch: &Scratch) -> (Sx, Option<String>) {
+/// ( req subA subB meta ): the same request compiled in <scratch>/subA and in <scratch>/subB (the files are
+/// written into both); every `@P@` in an argument stands for the scratch directory, the common parent.
+/// -> ( same_key okA okB )
+fn leg_cwdpair(case: &Sx) -> Sx {
+    let scratch = Scratch::new(&Sx::L(vec![]));
+    let parent = scratch.path().as_os_str().as_bytes().to_vec();
+    let req = case.arg(0);
+    let mut items = req.list().to_vec();
+    let argv: Vec<Sx> = req
+        .arg(0)
+        .list()
+        .iter()
+        .map(|a| {
+            let b = a.bytes();
+            let mut out = vec![];
+            let mut i = 0;
+            while i < b.len() {
+                if b[i..].starts_with(b"@P@") {
+                    out.extend_from_slice(&parent);
+                    i += 3;
+                } else {
+                    out.push(b[i]);
+                    i += 1;
+                }
+            }
+            Sx::B(out)
+        })
+        .collect();
+    items[0] = Sx::L(argv);
+    let req = Sx::L(items);
+    let mut keys = vec![];
+    let mut oks = vec![];
+    for sub in [case.arg(1), case.arg(2)] {
+        let cwd = scratch.path().join(OsStr::from_bytes(sub.bytes()));
+        let _ = std::fs::create_dir_all(&cwd);
+        for f in req.arg(1).list() {
+            let p = cwd.join(OsStr::from_bytes(f.arg(0).bytes()));
+            if let Some(parent) = p.parent() {
+                let _ = std::fs::create_dir_all(parent);
+            }
+            let _ = std::fs::write(&p, f.arg(1).bytes());
+        }
+        let (r, k) = key_in2(&req, &scratch, cwd);
+        oks.push(Sx::bool(r.tag() == "ok"));
+        keys.push(k);
+    }
+    let same = matches!((&keys[0], &keys[1]), (Some(a), Some(b)) if a == b);
+    Sx::L(vec![Sx::bool(same), oks[0].clone(), oks[1].clone()])
+}
+
+fn key_in2(case: &Sx, _scratch: &Scratch, cwd: PathBuf) -> (Sx, Option<String>) {
     let argv: Vec<OsString> = case.arg(0).list().iter().map(|a| os(a.bytes())).collect();
-    let cwd = scratch.path().to_path_buf();
     let depinfo: Option<Vec<u8>> = case.arg(2).list().first().map(|t| t.bytes().to_vec());
     let env: Vec<(OsString, OsString)> =
         case.arg(3).list().iter().map(|kv| (os(kv.arg(0).bytes()), os(kv.arg(1).bytes()))).collect();
@@ -390,6 +464,7 @@ fn main() {
             "args" => leg_args(case),
             "key" => leg_key(case),
             "keypair" => leg_keypair(case),
+            "cwdpair" => leg_cwdpair(case),
             "digest" => leg_digest(case),
             _ => Sx::L(vec![Sx::sym("unknown_leg")]),
         });
